@@ -210,7 +210,8 @@ func removeFromSlice(sl []string, s ...string) []string {
 			if len(sl) == 1 {
 				return nil
 			}
-			sl = slices.Delete(sl, idx, idx+1)
+			// Source values are copied around and share these slices, never edit them in place.
+			sl = slices.Delete(slices.Clone(sl), idx, idx+1)
 		}
 	}
 	return sl
@@ -731,6 +732,7 @@ func parseBinOps(expr string, n *promParser.BinaryExpr) (src []Source) {
 	case n.VectorMatching.Card == promParser.CardOneToOne:
 		rhs := walkNode(expr, n.RHS)
 		for _, s = range walkNode(expr, n.LHS) {
+			ls := s
 			if n.VectorMatching.On {
 				s.FixedLabels = true
 				s = includeLabel(s, n.VectorMatching.MatchingLabels...)
@@ -771,7 +773,7 @@ func parseBinOps(expr string, n *promParser.BinaryExpr) (src []Source) {
 				s.Operation = n.VectorMatching.Card.String()
 			}
 			for _, rs := range rhs {
-				if ok, s, pos := canJoin(s, rs, n.VectorMatching); !ok {
+				if ok, s, pos := canJoin(ls, rs, n.VectorMatching); !ok {
 					rs.IsDead = true
 					rs.IsDeadReason = s
 					rs.IsDeadPosition = pos
@@ -789,6 +791,7 @@ func parseBinOps(expr string, n *promParser.BinaryExpr) (src []Source) {
 	case n.VectorMatching.Card == promParser.CardOneToMany:
 		lhs := walkNode(expr, n.LHS)
 		for _, s = range walkNode(expr, n.RHS) {
+			rs := s
 			s = includeLabel(s, n.VectorMatching.Include...)
 			// If we have:
 			// foo * on(instance) group_left(a,b) bar{x="y"}
@@ -800,7 +803,7 @@ func parseBinOps(expr string, n *promParser.BinaryExpr) (src []Source) {
 				s.Operation = n.VectorMatching.Card.String()
 			}
 			for _, ls := range lhs {
-				if ok, s, pos := canJoin(s, ls, n.VectorMatching); !ok {
+				if ok, s, pos := canJoin(rs, ls, n.VectorMatching); !ok {
 					ls.IsDead = true
 					ls.IsDeadReason = s
 					ls.IsDeadPosition = pos
@@ -818,6 +821,7 @@ func parseBinOps(expr string, n *promParser.BinaryExpr) (src []Source) {
 	case n.VectorMatching.Card == promParser.CardManyToOne:
 		rhs := walkNode(expr, n.RHS)
 		for _, s = range walkNode(expr, n.LHS) {
+			ls := s
 			s = includeLabel(s, n.VectorMatching.Include...)
 			if n.VectorMatching.On {
 				s = includeLabel(s, n.VectorMatching.MatchingLabels...)
@@ -826,7 +830,7 @@ func parseBinOps(expr string, n *promParser.BinaryExpr) (src []Source) {
 				s.Operation = n.VectorMatching.Card.String()
 			}
 			for _, rs := range rhs {
-				if ok, s, pos := canJoin(s, rs, n.VectorMatching); !ok {
+				if ok, s, pos := canJoin(ls, rs, n.VectorMatching); !ok {
 					rs.IsDead = true
 					rs.IsDeadReason = s
 					rs.IsDeadPosition = pos
@@ -847,6 +851,7 @@ func parseBinOps(expr string, n *promParser.BinaryExpr) (src []Source) {
 		rhs := walkNode(expr, n.RHS)
 		for _, s = range walkNode(expr, n.LHS) {
 			var rhsConditional bool
+			ls := s
 			if n.VectorMatching.On {
 				s = includeLabel(s, n.VectorMatching.MatchingLabels...)
 			}
@@ -861,7 +866,7 @@ func parseBinOps(expr string, n *promParser.BinaryExpr) (src []Source) {
 				if isConditional {
 					rhsConditional = true
 				}
-				if ok, s, pos := canJoin(s, rs, n.VectorMatching); !ok {
+				if ok, s, pos := canJoin(ls, rs, n.VectorMatching); !ok {
 					rs.IsDead = true
 					rs.IsDeadReason = s
 					rs.IsDeadPosition = pos
